@@ -310,6 +310,7 @@ def full_table_cases(tier, rng):
 
 def c01_streams(tier, rng):
     return [StreamSet("roundtrip", "asan", kind_cases(tier, rng, ALL_KINDS, c01_ops)),
+            StreamSet("huffman-keys", "asan", hhf_cases(tier, rng, 40 if tier == "thorough" else 14), phase2=hhf_phase2, timeout=60),
             StreamSet("scale", "asan", scale_cases(tier, rng, scale_ops_roundtrip), timeout=600),
             StreamSet("full-tables", "asan", full_table_cases(tier, rng), timeout=600)]
 
@@ -1397,6 +1398,48 @@ def rpdac_cases(tier, rng, k):
             hs = int(len(S) * (1 + (ov * 1.0 / 100.0)))
             cases.append(("hq_%s_%d" % (name, ov), "rpdac", "HASHRPDAC", {"ov": ov, "hs": hs}, S, [["hd", qh], ["reload"], ["hd", qh]]))
             cases.append(("hf_%s_%d" % (name, ov), "rpdac", "HASHRPF", {"ov": ov, "hs": hs}, S, [["hf", qh], ["reload"], ["hf", qh]]))
+    return cases
+
+
+def hhf_phase2(case, impl_lines):
+    """HASHHF / HASHUFFDAC: codewords, table size, occupancy and the code's own answers -> the Lean validator
+    (keys re-encoded with the model of encodeString, table rebuilt by the double-hashing model, exact IDs)."""
+    strs = ",".join(hx(s) for s in case[4]) or "-"
+    ops = []
+    k = 0
+    for l in impl_lines:
+        t = l.split()
+        if k >= len(case[5]):
+            break
+        src = case[5][k]
+        if len(t) >= 6 and t[1] == "HH":
+            d = dict(x.split("=", 1) for x in t[2:])
+            ops.append(["hhchk", strs, src[1] if len(src) > 1 else "-", str(case[3].get("hs", 0)), d.get("ts", "0"), d.get("occ", "-"),
+                        d.get("cw", "-"), d.get("loc", "-"), d.get("abs", "-")])
+            k += 1
+        elif len(t) >= 2 and t[1] == "RQ":
+            ops.append(["rdskip"])
+            k += 1
+        elif not l.startswith("FAULT"):
+            ops.append(["hhchk", strs, "-", "0", "0", "-", "-", "-", "-"])
+            k += 1
+    while len(ops) < len(case[5]):
+        ops.append(["hhchk", strs, "-", "0", "0", "-", "-", "-", "-"])
+    return ops
+
+
+def hhf_cases(tier, rng, k):
+    cases = []
+    r = rng.fork("hhf")
+    for name, S in small_battery(tier, rng, k):
+        if sum(len(s) for s in S) > 40000:
+            continue
+        qs = [q for q in gen.queries_members_and_neighbours(r, S, 12) if q not in set(S)][:16]
+        qh = ",".join(hx(q) for q in qs) or "-"
+        for ov in (0, 25, 100):
+            hs = int(len(S) * (1 + (ov * 1.0 / 100.0)))
+            for kind in ("HASHHF", "HASHUFFDAC"):
+                cases.append(("hh_%s_%s_%d" % (kind, name, ov), "hhf", kind, {"ov": ov, "hs": hs}, S, [["hh", qh], ["reload"], ["hh", qh]]))
     return cases
 
 
